@@ -16,7 +16,8 @@ def parseLives (s : String) : Option (List (Ending × List Attempt) × Bool) :=
   (s.splitOn ";").foldlM (fun (acc : List (Ending × List Attempt) × Bool) life =>
     match life.splitOn ":" with
     | [e, a] => do
-      let ending ← (if e == "drop" then some Ending.drop else if e == "graceful" then some Ending.graceful else none)
+      let ending ← (if e == "drop" then some Ending.drop else if e == "graceful" then some Ending.graceful
+                    else if e == "wfail" then some Ending.wfail else none)
       let toks := if a.isEmpty then [] else a.splitOn ","
       let parsed ← toks.mapM parseAtt
       -- a refusal window contributes one transient to the model (at least one dial is refused); the attempt and
